@@ -1,5 +1,5 @@
 From Coq Require Import Extraction ExtrOcamlBasic.
-From QV Require Import Model.NameWire Model.RdataM Spec.RdataFormatS.
+From QV Require Import Model.NameWire Model.RdataM Spec.RdataFormatS Spec.RdataCompS.
 Extraction Language OCaml.
 Separate Extraction
-  validate read components component_octets spec_valid spec_read grammar decompressed.
+  validate read components component_octets spec_valid spec_read grammar decompressed spec_components.
